@@ -312,6 +312,32 @@ void explore03(Options const& o, std::vector<Shim*> const& shims, std::vector<Sh
       rec.count("branch.scalar.zero_divisor", brs[3]); rec.count("branch.scalar.nonzero_divisor", brs[4]);
       }
     }
+  // ---- 128-bit divisors: `__int128` is an integral type in the GNU dialects only; the shims of those configurations export it
+  {
+  std::vector<i128> N128;
+  for( i128 hi : { static_cast<i128>(0), static_cast<i128>(1), static_cast<i128>(5), static_cast<i128>(0x7fffffffffffffffll), static_cast<i128>(1) << 36 } )
+    for( i128 lo : { static_cast<i128>(0), static_cast<i128>(1), static_cast<i128>(3), static_cast<i128>(65536), static_cast<i128>(0x7fffffffffffffffll), static_cast<i128>(1) << 63, (static_cast<i128>(1) << 64) - 1 } )
+      { i128 v = (hi << 64) + lo; N128.push_back(v); N128.push_back(-v); }
+  N128.push_back(-(static_cast<i128>(1) << 126) - (static_cast<i128>(1) << 126));       // INT128_MIN
+  std::sort(N128.begin(), N128.end()); N128.erase(std::unique(N128.begin(), N128.end()), N128.end());
+  int c128 = rec.cls("C03.div_scalar.int128_divisor_wrong");
+  for( size_t ci = 0; ci < shims.size(); ++ci )
+    {
+    Shim* s = shims[ci]; if( !s->fm_has_int128() ) continue;
+    rec.count("configs_with_int128_divisors", 1);
+    LocalViol lv(rec); u64 n = 0;
+    for( size_t in = 0; in < N128.size(); ++in ) for( size_t ia = 0; ia < Sa.size(); ++ia ) for( int ord : { O_FIX_T, O_ASSIGN } )
+      {
+      i128 nn = N128[in]; i64 a = Sa[ia], g = 0; ++n;
+      int sg = guarded([&]{ g = s->fm_mixed128(M_DIV, 0, ord, a, static_cast<u64>(static_cast<u128>(nn) >> 64), static_cast<u64>(static_cast<u128>(nn))); });
+      bool ok = !sg && (nn == 0 ? fx_isnan(g) : g == static_cast<i64>(static_cast<i128>(a) / nn));
+      // INT128_MIN: a / INT128_MIN is 0 for every 64-bit a; the negation inside an implementation must not trap
+      if( !ok ) lv.hit(c128, (static_cast<u64>(ci) << 56) | (0x60ull << 48) | ((in * Sa.size() + ia) << 1) | static_cast<u64>(ord == O_ASSIGN), [=]{ return ex1(s, std::string("operator / (") + ORDN[ord] + ")", "__int128", {{"a",to_s(a)},{"n",to_s128(nn)}},
+             nn == 0 ? "NaN (division by zero)" : to_s128(static_cast<i128>(a) / nn), sg ? "killed by signal " + std::to_string(sg) : to_s(g), "sc128", {to_s(ord), to_s(a), to_su(static_cast<u64>(static_cast<u128>(nn) >> 64)), to_su(static_cast<u64>(static_cast<u128>(nn)))}); });
+      }
+    rec.add_states(n, n, n);
+    }
+  }
   { i64 g = 0; int sg = guarded([&]{ g = shims[0]->fm_bin(B_DIV, -(1ll<<47), -1); });
     rec.sample("(-2^31) / (raw -1): " + (sg ? std::string("signal ") + std::to_string(sg) : to_s(g))); }
   rec.sample("1 / 3 -> raw " + to_s(shims[0]->fm_bin(B_DIV, 65536, 3*65536)) + "; 7 / 0 -> " + to_s(shims[0]->fm_bin(B_DIV, 7*65536, 0)));
@@ -324,6 +350,11 @@ void replay03(Options const& o, Shim* s, Recorder& rec)
     if( sg ) c.trap(s, "operator /", "vv", a, "b", to_s(b), sg, o.rcase, o.rin, 0, d); else c.ff(s, op, a, b, g, 0, d);
     i64 out = 0; sg = guarded([&]{ s->fm_bin_row(op, a, &b, 1, &out); });
     if( sg ) c.trap(s, "operator /", "loop", a, "b", to_s(b), sg, o.rcase, o.rin, 0, d); else c.ff(s, op, a, b, out, 0, d); }
+  else if( o.rcase == "sc128" )
+    { int ord = static_cast<int>(parse_i64(o.rin.at(0))); i64 a = parse_i64(o.rin.at(1)); u64 hi = parse_u64(o.rin.at(2)), lo = parse_u64(o.rin.at(3));
+      i128 nn = static_cast<i128>((static_cast<u128>(hi) << 64) | lo); i64 g = 0; int sg = guarded([&]{ g = s->fm_mixed128(M_DIV, 0, ord, a, hi, lo); });
+      bool ok = !sg && (nn == 0 ? fx_isnan(g) : g == static_cast<i64>(static_cast<i128>(a) / nn));
+      if( !ok ) rec.viol(rec.cls("C03.div_scalar.int128_divisor_wrong"), 0, [&]{ return ex1(s, "operator / (fixed, __int128)", "", {{"a",to_s(a)},{"n",to_s128(nn)}}, nn == 0 ? "NaN" : to_s128(static_cast<i128>(a) / nn), sg ? "signal" : to_s(g), o.rcase, o.rin); }); }
   else if( o.rcase == "self" ) { i64 x = parse_i64(o.rin.at(0)); i64 g = 0; int sg = guarded([&]{ g = s->fm_un(U_DIVEQ_SELF, x); });
     if( sg ) c.trap(s, "x /= x (same object)", "", x, "b", to_s(x), sg, o.rcase, o.rin, 0, d); else c.ff(s, B_DIVEQ, x, x, g, 0, d); }
   else { int t = static_cast<int>(parse_i64(o.rin.at(0))), ord = static_cast<int>(parse_i64(o.rin.at(1))); i64 a = parse_i64(o.rin.at(2)); u64 n = parse_u64(o.rin.at(3));
